@@ -4,7 +4,7 @@
 
    [Erased m] is the property's statement on the summary m of ONE emitted
    module (see the reading guide at the top of Model/RunC10.v).  Every module
-   the real fast check emits - for the 128 spec-corpus worlds and for every
+   the real fast check emits - for the 143 spec-corpus worlds and for every
    generated package - is summarised by the harness and judged by [erasedb];
    C10_erasedb_correct is what makes that judgement the property. *)
 From DG Require Import Base.Util Base.Sexp Model.FcSummary Model.FcTransform Model.RunC10 Proofs.FcErasedProofs
